@@ -67,6 +67,12 @@ def cases(tier, seed):
     for model, alpha, presc in itertools.product([m for m in nl_models() if m not in KERNEL_FINDINGS], [0., 20.],
                                                  ['twist', 'twist+shortening', 'shortening']):
         out.append(dict(model=model, alpha=alpha, ords=[2, 1, 2], state='h', rule='trapz2d', grid='g24', cores=1, imp=0, presc=presc, seed=seed))
+        if presc != 'shortening':
+            # the state handed over as a COMPLETE amplitude vector (prescribed entries included) at load factors other than 1
+            out.append(dict(model=model, alpha=alpha, ords=[2, 1, 2], state='h', rule='trapz2d', grid='g24', cores=1, imp=0, presc=presc, full=1, seed=seed))
+    # isotropic short-cut models: wall data changed on the same object after a first evaluation
+    for model, alpha, redef in itertools.product([m for m in nl_models() if m.startswith('iso_')], [0., 20.], ['h', 'E11', 'nu']):
+        out.append(dict(model=model, alpha=alpha, ords=[2, 1, 2], state='h', rule='trapz2d', grid='g24', cores=1, imp=0, redef=redef, seed=seed))
     return out
 
 
@@ -97,6 +103,17 @@ def check_case(case):
     seed = case['seed']
     fails = []
     cc = build(case)
+    if case.get('redef'):
+        # first evaluation with other wall data, then the definition is changed on the same object
+        target = dict(h=cc.h, E11=cc.E11, nu=cc.nu)
+        setattr(cc, case['redef'], dict(h=1.6e-3, E11=40.0e9, nu=0.2)[case['redef']])
+        n0 = cc.calc_k0(silent=True).shape[0]
+        c_first = 0.5e-3 * np.array([seed_eps(seed, 3500 + i) for i in range(n0)])
+        cc.calc_fint(c_first.copy(), silent=True)
+        cc.calc_kT(c_first.copy(), silent=True)
+        for k_, v_ in target.items():
+            setattr(cc, k_, v_)
+        cc._calc_linear_matrices(silent=True)          # (the linear matrices are recomputed explicitly: their caching is C20's finding)
     k0uu = cc.calc_k0(silent=True).toarray()
     n = k0uu.shape[0]
     h = 0.375e-3 if 'iso' not in case['model'] else 1.0e-3
@@ -105,10 +122,37 @@ def check_case(case):
     c = amp * g
     incs = [1.0, 0.4] if case.get('presc') else [1.0]
     execs = 0
+    if case.get('full'):
+        # complete vectors: free amplitudes from c, prescribed ones at their full-load values (scaled by the load factor inside)
+        free_idx = np.array([i for i in range(cc.get_size()) if i not in list(cc.excluded_dofs)])
+        def to_full(cu):
+            return np.asarray(cc.calc_full_c(np.array(cu), inc=1.0), dtype=float)
+
+        orig_fint, orig_kT = cc.calc_fint, cc.calc_kT
+
+        def fint_full(cu, inc=1., silent=True):
+            cf = to_full(cu)
+            keep = cf.copy()
+            r = orig_fint(cf, inc=inc, silent=silent)
+            if not np.array_equal(cf, keep):
+                fails.append(fail('calc_fint modified the complete amplitude vector supplied by the caller', sig=None, case=case, load_factor=inc))
+            return r
+
+        def kT_full(cu, inc=1., silent=True):
+            cf = to_full(cu)
+            keep = cf.copy()
+            r = orig_kT(cf, inc=inc, silent=silent)
+            if not np.array_equal(cf, keep):
+                fails.append(fail('calc_kT modified the complete amplitude vector supplied by the caller', sig=None, case=case, load_factor=inc))
+            return r
+        call_fint, call_kT = fint_full, kT_full
+    else:
+        call_fint = lambda cu, inc=1., silent=True: cc.calc_fint(cu, inc=inc, silent=silent)
+        call_kT = lambda cu, inc=1., silent=True: cc.calc_kT(cu, inc=inc, silent=silent)
     for inc in incs:
         cin = c.copy()
-        f0 = np.asarray(cc.calc_fint(cin, inc=inc, silent=True), dtype=float)
-        kT = cc.calc_kT(cin, inc=inc, silent=True).toarray()
+        f0 = np.asarray(call_fint(cin, inc=inc, silent=True), dtype=float)
+        kT = call_kT(cin, inc=inc, silent=True).toarray()
         execs += 2
         if not np.array_equal(cin, c):
             fails.append(fail('calc_fint/calc_kT modified the state vector', sig=None, case=case))
@@ -130,8 +174,8 @@ def check_case(case):
             step = 1e-6 * max(np.abs(c).max(), h)
             for k in range(n):
                 e = np.zeros(n); e[k] = step
-                col = (np.asarray(cc.calc_fint(c + e, inc=inc, silent=True), dtype=float) -
-                       np.asarray(cc.calc_fint(c - e, inc=inc, silent=True), dtype=float)) / (2 * step)
+                col = (np.asarray(call_fint(c + e, inc=inc, silent=True), dtype=float) -
+                       np.asarray(call_fint(c - e, inc=inc, silent=True), dtype=float)) / (2 * step)
                 execs += 2
                 err = np.abs(col - kT[:, k]).max()
                 if err > 1e-4 * nl + 1e-9 * sc + (1e-6 * sc if case['state'] in ('zero', 'tiny') else 0.0):
